@@ -86,6 +86,20 @@ Lemma sel_cases (oc : outcome) (st' : dstage) (a b : ddict * list mop) :
       (st' = FlushOut -> match oc with Ret _ => True | _ => False end)).
 Proof. destruct oc, st'; cbn; auto 6; right; split; auto; discriminate. Qed.
 
+Lemma op_ok_mono mb mb' lo hi op : mb <= mb' -> op_ok mb lo hi op -> op_ok mb' lo hi op.
+Proof.
+  intros H. destruct op as [dst src n|dst bs|dst cap dp ds bs]; cbn [op_ok].
+  - intros (A1 & A2 & A3 & A4 & A5 & A6 & A7). repeat split; auto; [destruct dst|destruct src]; cbn in *; auto; lia.
+  - intros (A1 & A2 & A3). repeat split; auto. destruct dst; cbn in *; auto; lia.
+  - intros (A1 & A2 & A3 & A4 & A5 & A6 & A7). repeat split; auto; [destruct dst|destruct dp]; cbn in *; auto; lia.
+Qed.
+Lemma nb_fin s' d : bst (d_stage s') = false -> pre_frame d ->
+  J s' (fst (match d_stage s' with GetFrameHeader => (dd_reset (fst (d, @nil mop)), snd (d, @nil mop)) | _ => (d, @nil mop) end)) /\
+  snd (match d_stage s' with GetFrameHeader => (dd_reset (fst (d, @nil mop)), snd (d, @nil mop)) | _ => (d, @nil mop) end) = [].
+Proof.
+  intros Hb Hp. unfold J. rewrite Hb. destruct (d_stage s'); cbn [fst snd]; split; auto. apply pre_frame_reset.
+Qed.
+
 Section Sess.
 Variable bdec : list byte -> list byte -> option (list byte).
 
@@ -292,15 +306,15 @@ Proof.
 Qed.
 
 (* ---- header and skippable stages never hand over to a block stage ---- *)
-Definition nbp (s s' : dstate) (oc : outcome) : Prop :=
-  bst (d_stage s') = false /\ d_maxBuf s' = d_maxBuf s /\ match oc with Stop _ => d_stage s' <> Init | _ => True end.
+Definition nbp (s' : dstate) (oc : outcome) : Prop :=
+  bst (d_stage s') = false /\ match oc with Stop _ => d_stage s' <> Init | _ => True end.
 Definition nb_post (s s' : dstate) (oc : outcome) : Prop :=
-  match oc with Ret v => 0 <= v -> nbp s s' oc | _ => nbp s s' oc end.
+  d_maxBuf s' = d_maxBuf s /\ match oc with Ret v => 0 <= v -> nbp s' oc | _ => nbp s' oc end.
 
 Lemma nb_decodeHeader s b src s' r :
-  decodeHeader s b src = (s', r) -> 0 <= r -> bst (d_stage s') = false /\ d_maxBuf s' = d_maxBuf s.
+  decodeHeader s b src = (s', r) -> d_maxBuf s' = d_maxBuf s /\ (0 <= r -> bst (d_stage s') = false).
 Proof.
-  intros H Hr. pose proof (decodeHeader_cases _ _ _ _ _ H) as (M & _ & _ & D). split; [|exact M].
+  intros H. pose proof (decodeHeader_cases _ _ _ _ _ H) as (M & _ & _ & D). split; [exact M|]. intros Hr.
   destruct D as [D|[D|[D|[D|D]]]]; [lia| | | |].
   - destruct D as (_ & -> & _). reflexivity.
   - destruct D as (_ & _ & _ & -> & _). reflexivity.
@@ -313,18 +327,20 @@ Proof.
   intros Hst. unfold do_storeFrameHeader. destruct (_ <? _).
   - ss. unfold nb_post, nbp; ss. rewrite Hst. repeat split; auto. discriminate.
   - match goal with |- context [decodeHeader ?s1 true ?h] => destruct (decodeHeader s1 true h) as [s' r] eqn:ED end.
-    destruct (r <? 0) eqn:ER; ss; unfold nb_post, nbp.
+    destruct (nb_decodeHeader _ _ _ _ _ ED) as [N1 N2]. ss.
+    destruct (r <? 0) eqn:ER; ss; unfold nb_post, nbp; (split; [exact N1|]).
     + apply Z.ltb_lt in ER. intros; lia.
-    + apply Z.ltb_ge in ER. destruct (nb_decodeHeader _ _ _ _ _ ED ER) as [N1 N2]. ss. auto.
+    + apply Z.ltb_ge in ER. auto.
 Qed.
 Lemma nb_gfh l : d_stage (l_s l) = GetFrameHeader ->
   nb_post (l_s l) (l_s (fst (do_getFrameHeader l))) (snd (do_getFrameHeader l)).
 Proof.
   intros Hst. unfold do_getFrameHeader. destruct (_ <=? _).
   - destruct (decodeHeader (l_s l) false (l_src l)) as [s' r] eqn:ED.
-    destruct (r <? 0) eqn:ER; ss; unfold nb_post, nbp.
+    destruct (nb_decodeHeader _ _ _ _ _ ED) as [N1 N2].
+    destruct (r <? 0) eqn:ER; ss; unfold nb_post, nbp; (split; [exact N1|]).
     + apply Z.ltb_lt in ER. intros; lia.
-    + apply Z.ltb_ge in ER. destruct (nb_decodeHeader _ _ _ _ _ ED ER) as [N1 N2]. ss. auto.
+    + apply Z.ltb_ge in ER. auto.
   - destruct (_ =? 0).
     + ss. unfold nb_post, nbp; ss. rewrite Hst. auto.
     + match goal with |- context [do_storeFrameHeader ?l1] => pose proof (nb_sfh l1 eq_refl) as N end.
@@ -347,5 +363,151 @@ Lemma nb_skip l : d_stage (l_s l) = SkipSkippable ->
 Proof.
   intros Hst. unfold do_skipSkippable.
   brute; unfold nb_post, nbp; ss; rewrite ?Hst; repeat split; auto; discriminate.
+Qed.
+
+(* a header / skippable stage: the bookkeeping is untouched (or reset at the end of a skippable frame) *)
+Lemma nb_step st (s s' : dstate) oc d :
+  nb_post s s' oc -> pre_frame d ->
+  let r := match st with
+           | GetFrameHeader => (d, @nil mop)
+           | _ => match d_stage s' with GetFrameHeader => (dd_reset (fst (d, @nil mop)), snd (d, @nil mop)) | _ => (d, @nil mop) end
+           end in
+  d_maxBuf s <= d_maxBuf s' /\ (forall P : mop -> Prop, Forall P (snd r)) /\
+  match oc with
+  | Ret v => 0 <= v -> J s' (fst r)
+  | Stop _ => J s' (fst r) /\ d_stage s' <> Init
+  | Continue => J s' (fst r)
+  end.
+Proof.
+  intros [N1 N2] Hp r. split; [lia|].
+  assert (G : bst (d_stage s') = false -> snd r = [] /\ J s' (fst r)).
+  { intros Hb. unfold r. destruct st; try (destruct (nb_fin s' d Hb Hp) as [G1 G2]; split; [exact G2|exact G1]).
+    cbn [fst snd]. split; [reflexivity|]. unfold J. rewrite Hb. exact Hp. }
+  assert (E : snd r = []) by (unfold r; destruct st; destruct (d_stage s'); reflexivity).
+  split; [intros P; rewrite E; constructor|]. unfold nbp in N2.
+  destruct oc.
+  - apply G, N2. - split; [apply G, N2|apply N2]. - intros Hv. apply G, (N2 Hv).
+Qed.
+
+(* one iteration, any stage *)
+Lemma dd_step_ok o dst l d :
+  wf (l_s l) -> 0 <= l_cap l -> J (l_s l) d ->
+  d_maxBuf (l_s l) <= d_maxBuf (l_s (fst (iter bdec o l))) /\
+  Forall (op_ok (d_maxBuf (l_s (fst (iter bdec o l)))) dst (dst + zlen (l_out l) + l_cap l))
+         (snd (dd_step o dst l (fst (iter bdec o l)) (snd (iter bdec o l)) d)) /\
+  match snd (iter bdec o l) with
+  | Ret v => 0 <= v -> J (l_s (fst (iter bdec o l))) (fst (dd_step o dst l (fst (iter bdec o l)) (snd (iter bdec o l)) d))
+  | Stop _ => J (l_s (fst (iter bdec o l))) (fst (dd_step o dst l (fst (iter bdec o l)) (snd (iter bdec o l)) d)) /\
+              d_stage (l_s (fst (iter bdec o l))) <> Init
+  | Continue => J (l_s (fst (iter bdec o l))) (fst (dd_step o dst l (fst (iter bdec o l)) (snd (iter bdec o l)) d))
+  end.
+Proof.
+  intros W Hc HJ.
+  pose proof (iter_post bdec o l W Hc) as [A PO].
+  destruct (bst (d_stage (l_s l))) eqn:Hb.
+  - destruct (dd_step_block o dst l d W Hc Hb HJ) as [F1 F2].
+    pose proof (iter_keeps o l Hb) as (K1 & K2 & K3 & K4 & K5).
+    rewrite K3. split; [lia|]. split; [exact F1|].
+    assert (NI : d_stage (l_s (fst (iter bdec o l))) <> Init).
+    { destruct K4 as [K4|K4]; intros E; rewrite E in K4; discriminate. }
+    destruct (snd (iter bdec o l)); auto.
+    intros Hv. destruct PO as [_ [PO|(PO & _)]]; [lia|]. destruct (d_stage (l_s l)); discriminate.
+  - unfold J in HJ. rewrite Hb in HJ.
+    destruct (d_stage (l_s l)) eqn:Hst; try discriminate Hb.
+    + pose proof (nb_step GetFrameHeader _ _ _ d (nb_gfh l Hst) HJ) as R. cbv zeta iota beta in R.
+      unfold iter. rewrite Hst. unfold dd_step. cbv zeta. rewrite Hst. cbv iota beta.
+      destruct R as (R1 & R2 & R3). split; [exact R1|]. split; [apply R2|exact R3].
+    + pose proof (nb_step StoreFrameHeader _ _ _ d (nb_sfh l Hst) HJ) as R. cbv zeta iota beta in R.
+      unfold iter. rewrite Hst. unfold dd_step. cbv zeta. rewrite Hst. cbv iota beta.
+      destruct R as (R1 & R2 & R3). split; [exact R1|]. split; [apply R2|exact R3].
+    + (* dstage_init *)
+      destruct W as (Wo & Wa & Wi). unfold stage_inv in Wi. rewrite Hst in Wi. destruct Wi as [Ws Wb].
+      destruct (init_sizes (l_s l) Ws) as (Sz1 & M1 & St1).
+      assert (St1' : d_stage (l_s (with_s l (do_init (l_s l)))) = GetBlockHeader) by (ss; exact St1).
+      pose proof (k_gbh (with_s l (do_init (l_s l))) St1') as K. ss.
+      unfold iter in *. rewrite Hst in *.
+      unfold dd_step. cbv zeta. rewrite Hst. cbv iota beta.
+      destruct K as (K1 & K2 & K3 & K4 & K5).
+      split; [rewrite K3; exact M1|].
+      split; [apply fin_ops; constructor|].
+      assert (ID : ddI (d_maxBlock (do_init (l_s l))) (d_maxBuf (do_init (l_s l))) (linked (do_init (l_s l))) false (dd_stage_init d)).
+      { destruct HJ as [P1 P2]. destruct Sz1 as [Sa Sb]. apply dd_stage_init_ok; auto;
+          try (unfold FD_64KB, FD_128KB in *; destruct (linked (do_init (l_s l))); lia); destruct (dd_dict d); auto. }
+      assert (FJ : J (l_s (fst (do_getBlockHeader (with_s l (do_init (l_s l))))))
+                (fst (match d_stage (l_s (fst (do_getBlockHeader (with_s l (do_init (l_s l)))))) with
+                      | GetFrameHeader => (dd_reset (fst (dd_stage_init d, @nil mop)), snd (dd_stage_init d, @nil mop))
+                      | _ => (dd_stage_init d, @nil mop) end))).
+      { apply (fin_J (do_init (l_s l)) _ (dd_stage_init d, []) false); auto.
+        all: try (unfold keeps; repeat split; auto; fail).
+        all: try (intros E; specialize (K5 E); rewrite St1 in K5; discriminate). }
+      assert (NI : d_stage (l_s (fst (do_getBlockHeader (with_s l (do_init (l_s l)))))) <> Init).
+      { destruct K4 as [K4|K4]; intros E; rewrite E in K4; discriminate. }
+      destruct (snd (do_getBlockHeader (with_s l (do_init (l_s l))))); auto.
+    + pose proof (nb_step GetSFrameSize _ _ _ d (nb_gsfs l Hst) HJ) as R. cbv zeta iota beta in R.
+      unfold iter. rewrite Hst. unfold dd_step. cbv zeta. rewrite Hst. cbv iota beta.
+      destruct R as (R1 & R2 & R3). split; [exact R1|]. split; [apply R2|exact R3].
+    + pose proof (nb_step StoreSFrameSize _ _ _ d (nb_ssfs l Hst) HJ) as R. cbv zeta iota beta in R.
+      unfold iter. rewrite Hst. unfold dd_step. cbv zeta. rewrite Hst. cbv iota beta.
+      destruct R as (R1 & R2 & R3). split; [exact R1|]. split; [apply R2|exact R3].
+    + pose proof (nb_step SkipSkippable _ _ _ d (nb_skip l Hst) HJ) as R. cbv zeta iota beta in R.
+      unfold iter. rewrite Hst. unfold dd_step. cbv zeta. rewrite Hst. cbv iota beta.
+      destruct R as (R1 & R2 & R3). split; [exact R1|]. split; [apply R2|exact R3].
+Qed.
+
+(* ---- the loop of one call ---- *)
+Lemma dd_run_ok o dst hi : forall fuel l d ops0,
+  wf (l_s l) -> 0 <= l_cap l -> J (l_s l) d -> hi = dst + zlen (l_out l) + l_cap l ->
+  exists ops1,
+    snd (dd_run bdec fuel o dst l d ops0) = ops0 ++ ops1 /\
+    Forall (op_ok (d_maxBuf (l_s (fst (fst (fst (dd_run bdec fuel o dst l d ops0)))))) dst hi) ops1 /\
+    d_maxBuf (l_s l) <= d_maxBuf (l_s (fst (fst (fst (dd_run bdec fuel o dst l d ops0))))) /\
+    match snd (fst (fst (dd_run bdec fuel o dst l d ops0))) with
+    | FStop _ => J (l_s (fst (fst (fst (dd_run bdec fuel o dst l d ops0))))) (snd (fst (dd_run bdec fuel o dst l d ops0))) /\
+                 wf (l_s (fst (fst (fst (dd_run bdec fuel o dst l d ops0))))) /\
+                 d_stage (l_s (fst (fst (fst (dd_run bdec fuel o dst l d ops0))))) <> Init
+    | FRet v => 0 <= v -> J (l_s (fst (fst (fst (dd_run bdec fuel o dst l d ops0))))) (snd (fst (dd_run bdec fuel o dst l d ops0)))
+    | FFuel => True
+    end.
+Proof.
+  induction fuel as [|fuel IH]; intros l d ops0 W Hc HJ Hhi.
+  - cbn [dd_run fst snd]. exists []. rewrite app_nil_r. repeat split; auto. lia.
+  - cbn [dd_run].
+    pose proof (dd_step_ok o dst l d W Hc HJ) as (M & F & R).
+    pose proof (iter_post bdec o l W Hc) as [A PO].
+    destruct (iter bdec o l) as [l1 oc]. cbn [fst snd] in *.
+    destruct (dd_step o dst l l1 oc d) as [d1 ops'] eqn:ES. cbn [fst snd] in *.
+    rewrite <- Hhi in F.
+    destruct oc as [|h|v].
+    + destruct PO as [W1 _].
+      assert (Hc1 : 0 <= l_cap l1) by (unfold acct in A; lia).
+      assert (Hhi1 : hi = dst + zlen (l_out l1) + l_cap l1) by (unfold acct in A; lia).
+      destruct (IH l1 d1 (ops0 ++ ops') W1 Hc1 R Hhi1) as (ops1 & E1 & F1 & M1 & R1).
+      exists (ops' ++ ops1). split; [rewrite E1, app_assoc; reflexivity|].
+      split; [|split; [lia|exact R1]].
+      apply Forall_app. split; [|exact F1].
+      eapply Forall_impl; [|exact F]. intros op. apply op_ok_mono. exact M1.
+    + cbn [fst snd]. exists ops'. split; [reflexivity|]. split; [exact F|]. split; [exact M|].
+      destruct R as [R1 R2]. destruct PO as [W1 _]. auto.
+    + cbn [fst snd]. exists ops'. split; [reflexivity|]. split; [exact F|]. split; [exact M|exact R].
+Qed.
+
+Lemma wf_stage_fl s : (is_fl (d_stage s) = true <-> d_stage s = FlushOut).
+Proof. destruct (d_stage s); cbn; split; intros; try discriminate; reflexivity. Qed.
+
+(* the end of a call: "preserve history within tmpOut" *)
+Lemma dd_endcall_J s d stable lo hi :
+  J s d -> d_stage s <> Init ->
+  Forall (op_ok (d_maxBuf s) lo hi) (snd (dd_endcall (linked s) stable (d_stage s) d)) /\
+  J s (fst (dd_endcall (linked s) stable (d_stage s) d)).
+Proof.
+  intros HJ NI. unfold J in *. destruct (bst (d_stage s)) eqn:Hb.
+  - destruct HJ as [Sz I].
+    destruct (dd_endcall_ok _ _ (linked s) stable (d_stage s) _ d lo hi Sz I (wf_stage_fl s)) as [E1 E2].
+    split; [exact E1|]. split; [exact Sz|exact E2].
+  - assert (E : dd_endcall (linked s) stable (d_stage s) d = (d, [])).
+    { assert (R : (FD_dstage_init <=? stage_num (d_stage s)) && (stage_num (d_stage s) <? FD_dstage_getSuffix) = false)
+        by (destruct (d_stage s); try discriminate Hb; try (exfalso; apply NI; reflexivity); reflexivity).
+      unfold dd_endcall. rewrite <- andb_assoc, R, andb_false_r. reflexivity. }
+    rewrite E. cbn [fst snd]. split; [constructor|exact HJ].
 Qed.
 End Sess.
